@@ -22,6 +22,7 @@ fn term(i: usize) -> SimpleTerm<'static> {
         _ => SimpleTerm::LiteralDatatype("l".into(), IriRef::new_unchecked("x:d".into())),
     }
 }
+fn unknown() -> SimpleTerm<'static> { SimpleTerm::Iri(IriRef::new_unchecked("x:unknown".into())) }
 fn gname(i: usize) -> GraphName<SimpleTerm<'static>> { if i == 0 { None } else { Some(term(i)) } }
 fn tnum(t: &SimpleTerm) -> usize { if t.is_iri() { 1 } else if t.is_blank_node() { 2 } else { 3 } }
 
@@ -77,6 +78,33 @@ fn check_ds<D: MutableDataset + Dataset + Default>(name: &str, hist: &[(bool, Q)
                 (Some(s), Some(p), Some(o), Some(g)) => run!([s], [p], [o], [g]),
             }
         }
+        // other matcher kinds, one position at a time (the others Any) and combined: negation of a constant / of
+        // several constants, several constants, a closure, a term kind, Option, on s / p / o / g
+        {
+            use sophia_api::term::matcher::Not;
+            use sophia_api::term::TermKind;
+            macro_rules! mk { ($what:expr, $s:expr, $p:expr, $o:expr, $g:expr, $pred:expr) => {{
+                let want: BTreeSet<Q> = oracle.iter().cloned().filter($pred).collect();
+                let got: Vec<Q> = d.quads_matching($s, $p, $o, $g).map(|x| { let x = x.unwrap(); let r = (x.g().map(|t| tnum(&t.as_simple())).unwrap_or(0), tnum(&x.s().as_simple()), tnum(&x.p().as_simple()), tnum(&x.o().as_simple())); r }).collect();
+                let gs: BTreeSet<Q> = got.iter().cloned().collect();
+                if gs != want || got.len() != want.len() { fail(name, &hist[..=n], format!("quads_matching {} = {:?} expected {:?}", $what, got, want)); }
+            }}}
+            let (qs, qo, qg) = (q.1, q.3, q.0);
+            mk!("(Not([s]),*,*,*)", Not([term(qs)]), Any, Any, Any, |x: &Q| x.1 != qs);
+            mk!("(*,Not([p]),*,*)", Any, Not([term(q.2)]), Any, Any, |x: &Q| x.2 != q.2);
+            mk!("(*,*,Not([o]),*)", Any, Any, Not([term(qo)]), Any, |x: &Q| x.3 != qo);
+            mk!("(*,*,*,Not([g]))", Any, Any, Any, Not([gname(qg)]), |x: &Q| x.0 != qg);
+            mk!("(*,*,*,Not([default]))", Any, Any, Any, Not([None::<SimpleTerm>]), |x: &Q| x.0 != 0);
+            mk!("(Not([s]),*,Not([o]),Not([g]))", Not([term(qs)]), Any, Not([term(qo)]), Not([gname(qg)]), |x: &Q| x.1 != qs && x.3 != qo && x.0 != qg);
+            mk!("(Not(Some(s)),*,[o],*)", Not(Some(term(qs))), Any, [term(qo)], Any, |x: &Q| x.1 != qs && x.3 == qo);
+            mk!("(Not([unknown]),*,*,*)", Not([unknown()]), Any, Any, Any, |_x: &Q| true);
+            mk!("([s,unknown],*,[1,3],*)", [term(qs), unknown()], Any, [term(1), term(3)], Any, |x: &Q| x.1 == qs && (x.3 == 1 || x.3 == 3));
+            mk!("(Not([1,2]),*,Not([1,3]),*)", Not([term(1), term(2)]), Any, Not([term(1), term(3)]), Any, |x: &Q| x.1 != 1 && x.1 != 2 && x.3 == 2);
+            mk!("(closure is_iri,*,closure !is_iri,*)", |t: SimpleTerm| t.is_iri(), Any, |t: SimpleTerm| !t.is_iri(), Any, |x: &Q| x.1 == 1 && x.3 != 1);
+            mk!("(kind BlankNode,*,kind Literal,*)", TermKind::BlankNode, Any, TermKind::Literal, Any, |x: &Q| x.1 == 2 && x.3 == 3);
+            mk!("(*,*,Some(o),[g, default])", Any, Any, Some(term(qo)), [gname(qg), None], |x: &Q| x.3 == qo && (x.0 == qg || x.0 == 0));
+            mk!("(*,*,*,closure named)", Any, Any, Any, |g: GraphName<SimpleTerm>| g.is_some(), |x: &Q| x.0 != 0);
+        }
     }
 }
 
@@ -100,6 +128,25 @@ fn check_g<G: MutableGraph + Graph + Default>(name: &str, hist: &[(bool, Q)]) {
                 0 => run!(Any, Any, Any), 1 => run!([s], Any, Any), 2 => run!(Any, [p], Any), 3 => run!([s], [p], Any),
                 4 => run!(Any, Any, [o]), 5 => run!([s], Any, [o]), 6 => run!(Any, [p], [o]), _ => run!([s], [p], [o]),
             }
+        }
+        {
+            use sophia_api::term::matcher::Not;
+            use sophia_api::term::TermKind;
+            macro_rules! mk { ($what:expr, $s:expr, $p:expr, $o:expr, $pred:expr) => {{
+                let want: BTreeSet<Q> = oracle.iter().cloned().filter($pred).collect();
+                let got: Vec<Q> = d.triples_matching($s, $p, $o).map(|x| { let x = x.unwrap(); let r = (0, tnum(&x.s().as_simple()), tnum(&x.p().as_simple()), tnum(&x.o().as_simple())); r }).collect();
+                let gs: BTreeSet<Q> = got.iter().cloned().collect();
+                if gs != want || got.len() != want.len() { fail(name, &hist[..=n], format!("triples_matching {} = {:?} expected {:?}", $what, got, want)); }
+            }}}
+            let (qs, qo) = (q.1, q.3);
+            mk!("(Not([s]),*,*)", Not([term(qs)]), Any, Any, |x: &Q| x.1 != qs);
+            mk!("(*,Not([p]),*)", Any, Not([term(q.2)]), Any, |x: &Q| x.2 != q.2);
+            mk!("(*,*,Not([o]))", Any, Any, Not([term(qo)]), |x: &Q| x.3 != qo);
+            mk!("(Not([s]),*,Not([o]))", Not([term(qs)]), Any, Not([term(qo)]), |x: &Q| x.1 != qs && x.3 != qo);
+            mk!("([s],*,Not(Some(o)))", [term(qs)], Any, Not(Some(term(qo))), |x: &Q| x.1 == qs && x.3 != qo);
+            mk!("(Not([unknown]),[p],*)", Not([unknown()]), [term(q.2)], Any, |x: &Q| x.2 == q.2);
+            mk!("([s,unknown],*,[1,3])", [term(qs), unknown()], Any, [term(1), term(3)], |x: &Q| x.1 == qs && (x.3 == 1 || x.3 == 3));
+            mk!("(closure is_iri,*,kind Literal)", |t: SimpleTerm| t.is_iri(), Any, TermKind::Literal, |x: &Q| x.1 == 1 && x.3 == 3);
         }
     }
 }
